@@ -60,7 +60,9 @@ type RefFS struct {
 	maxSize int64
 
 	// instrumentation
-	log     []string // every call, "Op arg arg -> errno"
+	log       []string // every call, "Op arg arg -> errno"
+	pathLog   []PathUse
+	targetLog []string
 	logOn   bool
 	gate    func(call string)       // called (without the lock) before each call; may block
 	fault   func(call string) error // non-nil error => the call fails with it before touching state
@@ -138,6 +140,39 @@ func (r *RefFS) record(call string, err error) {
 	r.mu.Lock()
 	r.log = append(r.log, call+" -> "+errnoName(err))
 	r.mu.Unlock()
+}
+
+// PathUse is one path argument handed to the backend (structured twin of the text log, safe for any bytes).
+type PathUse struct {
+	Op   string
+	Path string
+}
+
+func (r *RefFS) notePath(op, p string) {
+	if !r.logOn {
+		return
+	}
+	r.mu.Lock()
+	r.pathLog = append(r.pathLog, PathUse{op, p})
+	r.mu.Unlock()
+}
+
+func (r *RefFS) noteTarget(t string) {
+	if !r.logOn {
+		return
+	}
+	r.mu.Lock()
+	r.targetLog = append(r.targetLog, t)
+	r.mu.Unlock()
+}
+
+// TakePaths returns and clears the structured path log and the symlink targets seen.
+func (r *RefFS) TakePaths() ([]PathUse, []string) {
+	r.mu.Lock()
+	defer r.mu.Unlock()
+	p, t := r.pathLog, r.targetLog
+	r.pathLog, r.targetLog = nil, nil
+	return p, t
 }
 
 func (r *RefFS) TakeLog() []string {
@@ -266,6 +301,7 @@ func baseName(p string) string {
 
 func (r *RefFS) Lstat(name string) (os.FileInfo, error) {
 	call := "Lstat " + name
+	r.notePath("Lstat", name)
 	if err := r.enter(call); err != nil {
 		return nil, err
 	}
@@ -287,6 +323,7 @@ func (r *RefFS) Lstat(name string) (os.FileInfo, error) {
 
 func (r *RefFS) Stat(name string) (os.FileInfo, error) {
 	call := "Stat " + name
+	r.notePath("Stat", name)
 	if err := r.enter(call); err != nil {
 		return nil, err
 	}
@@ -308,6 +345,7 @@ func (r *RefFS) Stat(name string) (os.FileInfo, error) {
 
 func (r *RefFS) Readlink(name string) (string, error) {
 	call := "Readlink " + name
+	r.notePath("Readlink", name)
 	if err := r.enter(call); err != nil {
 		return "", err
 	}
@@ -333,6 +371,8 @@ func (r *RefFS) Readlink(name string) (string, error) {
 
 func (r *RefFS) Symlink(oldname, newname string) error {
 	call := fmt.Sprintf("Symlink %q %s", oldname, newname)
+	r.notePath("Symlink", newname)
+	r.noteTarget(oldname)
 	if err := r.enter(call); err != nil {
 		return err
 	}
@@ -358,6 +398,7 @@ func (r *RefFS) Symlink(oldname, newname string) error {
 
 func (r *RefFS) Lchown(name string, uid, gid int) error {
 	call := fmt.Sprintf("Lchown %s %d %d", name, uid, gid)
+	r.notePath("Lchown", name)
 	if err := r.enter(call); err != nil {
 		return err
 	}
@@ -366,6 +407,7 @@ func (r *RefFS) Lchown(name string, uid, gid int) error {
 
 func (r *RefFS) Chown(name string, uid, gid int) error {
 	call := fmt.Sprintf("Chown %s %d %d", name, uid, gid)
+	r.notePath("Chown", name)
 	if err := r.enter(call); err != nil {
 		return err
 	}
@@ -391,6 +433,7 @@ func (r *RefFS) chown(call, op, name string, uid, gid int, follow bool) error {
 
 func (r *RefFS) Mkdir(name string, perm os.FileMode) error {
 	call := fmt.Sprintf("Mkdir %s %o", name, uint32(perm))
+	r.notePath("Mkdir", name)
 	if err := r.enter(call); err != nil {
 		return err
 	}
@@ -416,6 +459,7 @@ func (r *RefFS) Mkdir(name string, perm os.FileMode) error {
 
 func (r *RefFS) Remove(name string) error {
 	call := "Remove " + name
+	r.notePath("Remove", name)
 	if err := r.enter(call); err != nil {
 		return err
 	}
@@ -458,6 +502,8 @@ func isAncestor(a, n *rnode) bool { // is a == n or an ancestor of n's subtree c
 
 func (r *RefFS) Rename(oldpath, newpath string) error {
 	call := fmt.Sprintf("Rename %s %s", oldpath, newpath)
+	r.notePath("Rename", oldpath)
+	r.notePath("Rename", newpath)
 	if err := r.enter(call); err != nil {
 		return err
 	}
@@ -512,6 +558,7 @@ func (r *RefFS) renameLocked(oldpath, newpath string) syscall.Errno {
 
 func (r *RefFS) Chmod(name string, mode os.FileMode) error {
 	call := fmt.Sprintf("Chmod %s %o", name, uint32(mode))
+	r.notePath("Chmod", name)
 	if err := r.enter(call); err != nil {
 		return err
 	}
@@ -531,6 +578,7 @@ func (r *RefFS) Chmod(name string, mode os.FileMode) error {
 
 func (r *RefFS) Chtimes(name string, atime, mtime time.Time) error {
 	call := "Chtimes " + name
+	r.notePath("Chtimes", name)
 	if err := r.enter(call); err != nil {
 		return err
 	}
@@ -574,6 +622,7 @@ func (r *RefFS) truncNode(n *rnode, size int64) syscall.Errno {
 
 func (r *RefFS) Truncate(name string, size int64) error {
 	call := fmt.Sprintf("Truncate %s %d", name, size)
+	r.notePath("Truncate", name)
 	if err := r.enter(call); err != nil {
 		return err
 	}
@@ -597,6 +646,7 @@ func (r *RefFS) OpenFile(name string, flag int, perm os.FileMode) (absfs.File, e
 		op = "OpenFileW"
 	}
 	call := fmt.Sprintf("%s %s %#x", op, name, flag)
+	r.notePath(op, name)
 	if err := r.enter(call); err != nil {
 		return nil, err
 	}
@@ -659,6 +709,7 @@ func (r *RefFS) TempDir() string                      { return "/tmp" }
 func (r *RefFS) Open(name string) (absfs.File, error) { return r.OpenFile(name, os.O_RDONLY, 0) }
 func (r *RefFS) Create(name string) (absfs.File, error) {
 	call := "Create " + name
+	r.notePath("Create", name)
 	if g := r.gate; g != nil {
 		g(call)
 	}
